@@ -278,7 +278,7 @@ def run_case(res, case, sigs, attempt=0):
                 error = exc
         tcpnet.wait_quiet(0, 3.0)
         sigs.add(net.signature())
-        if isinstance(error, exceptions.DCMTimeoutError) and attempt < 2:
+        if tcpnet.is_timeout(error) and attempt < 2:
             res.count('flaky-timeouts')
             return run_case(res, case, sigs, attempt + 1)
         judge(res, case, where, error, datasets, received, returned, outcomes, snaps, storage_dir,
